@@ -351,9 +351,7 @@ class MQTTProtocol(MQTTBaseProtocol):
         '''
         Called when a CONNACK has been received (publisher only).
         '''
-        if self._cleanStart:
-            self._purgeSession(MQTTSessionCleared())
-        else:
+        if not self._cleanStart:
             self._syncSession()
         if self.onMqttConnectionMade:
             self.onMqttConnectionMade()
@@ -361,6 +359,19 @@ class MQTTProtocol(MQTTBaseProtocol):
     # ---------------------------
     # State Machine API callbacks
     # ---------------------------
+
+    def doConnect(self, request):
+        '''
+        Send a CONNECT control packet.
+        '''
+        d = MQTTBaseProtocol.doConnect(self, request)
+        if self.state is self.CONNECTING and self._cleanStart:
+            # A clean session discards now what earlier connections left behind,
+            # so that nothing requested from now on is mistaken for it.
+            self._purgeSession(MQTTSessionCleared())
+        return d
+
+    # --------------------------------------------------------------------------
 
     def doSubscribe(self, request):
         '''
